@@ -380,6 +380,10 @@ def local_imports_of(fi):
     return table
 
 
+import re as _re
+_MANGLED = _re.compile(r"(?<=[A-Za-z0-9])__[A-Za-z_][A-Za-z0-9_]*?__\d+\b")
+
+
 def norm_stmt(node):
     """Normalised statement text: key for findings (never line numbers)."""
     try:
@@ -387,4 +391,5 @@ def norm_stmt(node):
     except Exception:
         s = ast.dump(node)
     s = " ".join(s.split())
+    s = _MANGLED.sub("", s)          # names the inliner renamed apart (x__helper__3) are keyed by their source name
     return s if len(s) <= 160 else s[:157] + "..."
